@@ -189,6 +189,39 @@ def single_args(spec, c, container="nd"):
     return out
 
 
+def cast_sensitive_measures(arch, spec, rng):
+    """a float64 measure vector m with index_of_single(m) != index_of_single(float32(m)), or None: bisect between two points of
+    different cells and probe both sides of the crossing at sub-float32-ulp distances"""
+    nd = len(spec["ranges"])
+    pt = lambda: np.array([rng.uniform(lo, hi) for lo, hi in spec["ranges"]], dtype=np.float64)
+    for _ in range(6):
+        a, b = pt(), pt()
+        if rng.random() < 0.7 and nd > 1:           # cross one border only
+            j = rng.randrange(nd)
+            b = np.where(np.arange(nd) == j, b, a)
+        ia, ib = int(arch.index_of_single(a)), int(arch.index_of_single(b))
+        if ia == ib:
+            continue
+        for _ in range(70):
+            mid = (a + b) / 2
+            if np.array_equal(mid, a) or np.array_equal(mid, b):
+                break
+            if int(arch.index_of_single(mid)) == ia:
+                a = mid
+            else:
+                b = mid
+        for base in (a, b):
+            for k in (0, 1, 3, 10, 100, 1000, 100000):
+                m = base + (base - (b if base is a else a)) * k
+                if not all(lo <= x <= hi for x, (lo, hi) in zip(m, spec["ranges"])):
+                    continue
+                i64 = int(arch.index_of_single(m))
+                i32 = int(arch.index_of_single(m.astype(np.float32)))
+                if i64 != i32:
+                    return m
+    return None
+
+
 def decode_elite(spec, fields, table):
     """fields: dict name -> value of ONE elite. Returns id, or ('torn', why)."""
     sol = np.asarray(fields["solution"])
@@ -260,9 +293,8 @@ def apply_op(archive, spec, op, table, obs=True):
         for c in cands:
             table[c[0]] = c
         kw = batch_arrays(spec, cands, op[2] if len(op) > 2 else "nd")
-        # SlidingBoundariesArchive casts every field to the archive's dtype before it routes a solution (it buffers a copy);
-        # the other archives route the measures as given
-        cells = cells_of(archive, spec, cands, np.asarray(kw["measures"], dtype=DT[spec["dtype"]]) if spec["kind"] == "sliding" else kw["measures"])
+        # every archive converts the measures to its dtype before it routes a solution (fix FC07a: the cell is the cell of the STORED measures)
+        cells = cells_of(archive, spec, cands, np.asarray(kw["measures"], dtype=DT[spec["dtype"]]))
         try:
             info = archive.add(**kw)
             if not cands and not info:
@@ -285,7 +317,7 @@ def apply_op(archive, spec, op, table, obs=True):
         c = op[1]
         table[c[0]] = c
         kw = single_args(spec, c, op[2] if len(op) > 2 else "nd")
-        cell = int(archive.index_of_single(np.asarray(kw["measures"], dtype=DT[spec["dtype"]]) if spec["kind"] == "sliding" else kw["measures"]))
+        cell = int(archive.index_of_single(np.asarray(kw["measures"], dtype=DT[spec["dtype"]])))
         try:
             info = archive.add_single(**kw)
             ent["ret"] = {"status": [int(info["status"])], "value": [F(info["value"])],
